@@ -167,6 +167,10 @@ pub struct RunLog {
     pub probes: Vec<ProbeRec>,
     pub replies: Vec<ReplyRec>,
     pub setup_error: Option<String>,
+    /// the program ended with the benign continuation (reconnect + poll until idle)
+    pub epilogue: bool,
+    /// index of the first step of the benign continuation
+    pub epilogue_from: Option<usize>,
 }
 
 pub fn to_property<'a>(p: &'a Prop) -> Property<'a> {
@@ -552,18 +556,18 @@ impl<'d> Exec<'d> {
         r.touches_after = touches;
         r.out_after = out;
         r.pkts_after = pkts;
-        let before: Vec<u16> = r
-            .snap_before
-            .as_ref()
-            .map(|s| s.tx.retained.iter().map(|e| e.packet_id).collect())
-            .unwrap_or_default();
-        r.new_retained = snap
-            .tx
-            .retained
-            .iter()
-            .map(|e| e.packet_id)
-            .filter(|id| !before.contains(id))
-            .collect();
+        // publish/subscribe/unsubscribe never read, so the retained list can only grow by the
+        // request's own entry (pushed at the end) during such a call
+        let before_len = r.snap_before.as_ref().map(|s| s.tx.retained.len()).unwrap_or(0);
+        let same_gen = r.snap_before.as_ref().is_some_and(|s| s.generation == snap.generation);
+        r.new_retained = if same_gen
+            && matches!(r.kind, "publish0" | "publish1" | "publish2" | "subscribe" | "unsubscribe")
+            && snap.tx.retained.len() > before_len
+        {
+            snap.tx.retained[before_len..].iter().map(|e| e.packet_id).collect()
+        } else {
+            vec![]
+        };
         r.snap_after = Some(snap);
         r.live_after = live;
     }
